@@ -10,7 +10,7 @@ from analysis.interproc import Interproc
 from analysis.report import load_table
 
 ASSUMPTIONS = [
-    "release-build arithmetic: overflow checks (S9) do not exist; narrow arithmetic that may leave its type's range and unsigned subtraction that may underflow yield an unknown value",
+    "arithmetic: nothing is assumed from overflow checks (a result that may leave its type's range is an unknown value, as in a release build); of the checks themselves only the unsigned subtraction is in scope (class S9u: it must not go below zero - the commonest arithmetic panic of a dev / test build); the other overflow checks (S9) are out of scope",
     "A1: container lengths are below 2^31 (so `len() as i32` keeps its value)",
     "A2: 64-bit additions/multiplications of offsets and lengths do not wrap",
     "third-party crates (std, regex, png, base64, chrono, icy_sixel, anyhow, ...) panic only through the documented panicking APIs listed in analysis/callmodels.py",
@@ -38,6 +38,7 @@ def shared(f, invariants=None):
             _SHARED[gk] = CG.CallGraph(f)
         g = _SHARED[gk]
         ip = Interproc(f, g)
+        ip.s9_unsigned = True      # class S9u: an unsigned subtraction must not go below zero (it panics in a build with overflow checks)
         ip.invariants = list(invariants or [])
         ip.an.invariants = ip.invariants
         _SHARED[key] = (g, ip)
